@@ -214,15 +214,15 @@ Definition with_aug_len (dbg be : bool) (data : list byte) : res (list byte) :=
   if dbg && (128 <=? len data) then Panic else
   let* lb := write_udata be (len data) 1 in Ok (lb ++ data).
 
+(* size of the initial length field written by write_initial_length *)
+Definition ilen_size (fmt64 : bool) : N := if fmt64 then 12 else 4.
+
 (* write_nop + write_initial_length_at around a finished body *)
 Definition close_entry (dbg be fmt64 : bool) (asize : N) (body : list byte) : res (list byte) :=
-  let* pad := write_nop dbg (word_size fmt64 + len body) asize in
+  let* pad := write_nop dbg (ilen_size fmt64 + len body) asize in   (* initial_length_size(), repo d2e46aa *)
   let body' := body ++ pad in
   let* il := write_initial_length fmt64 be (len body') in
   Ok (il ++ body').
-
-(* size of the initial length field written by write_initial_length *)
-Definition ilen_size (fmt64 : bool) : N := if fmt64 then 12 else 4.
 
 (* CommonInformationEntry::write(w, eh_frame) at section offset pos; the returned offset is pos *)
 Definition cie_write (dbg be eh : bool) (pos : N) (c : cie) : res (list byte) :=
@@ -282,10 +282,10 @@ Definition fde_write (dbg be eh : bool) (pos cie_off : N) (c : cie) (f : fde) : 
     else
       let* a := write_address be (f_addr f) asize in
       let* l := write_udata be (f_len f) asize in Ok (a ++ l) in
+  (* if self.lsda.is_some() != cie.lsda_encoding.is_some() { return Err(Error::InvalidAddress) }  (repo a8af08f) *)
+  if negb (Bool.eqb (is_some (f_lsda f)) (is_some (c_lsda_enc c))) then Err WInvalidAddress else
   let* augdata :=
     if has_augmentation c then
-      (* debug_assert_eq!(self.lsda.is_some(), cie.lsda_encoding.is_some()) *)
-      if dbg && negb (Bool.eqb (is_some (f_lsda f)) (is_some (c_lsda_enc c))) then Panic else
       let* d := match f_lsda f, c_lsda_enc c with
                 | Some a, Some e => write_eh_pointer be (apos + len addrs + 1) a e asize
                 | _, _ => Ok []
